@@ -117,12 +117,8 @@ def make_classify(mine):
     def classify(tid, clause, case):
         if not clause.startswith(mine) and not clause.startswith('HARNESS'):
             return 'IGNORE'
-        if clause == 'C05_TaintedStarAdvertised':
-            forms = taint_key(case) or []
-            nested = [f for f in forms if f.startswith('nested_')]
-            if nested and all(f.split(':')[2] in ('handover', 'item_set', 'item_del', 'method') for f in nested) and \
-                    all(not f.startswith('top') or f.split(':')[2] in ('contains', 'method_ro') or True for f in forms):
-                return 'nested-mutation-not-seen-by-walker'
+        if clause == 'C05_AcceptedCallRaisesTypeError_HiddenCallMerged':
+            return 'hidden-call-merged-with-precise-call'
         return clause
     return classify
 
